@@ -28,8 +28,8 @@ func init() { gens["C18"] = genC18 }
 
 type c18Civil struct {
 	Y, Mo, D, H, Mi, S int
-	Ns                int
-	Off               int // minutes east
+	Ns                 int
+	Off                int // minutes east
 }
 
 func c18Days(y, m int) int {
@@ -606,7 +606,7 @@ func c18GenWorld(r *hx.Rng) c18World {
 
 type c18Flat struct {
 	Unit, Table, Bench, Exp, Ser, Role, NH, DH string
-	Val                                       float64
+	Val                                        float64
 }
 
 func c18Flatten(results []c18Result) (flat []c18Flat, start []int) {
